@@ -602,6 +602,12 @@ func frGenHsSeg(rt *rapid.T) [][]int {
 	return out
 }
 
+// BrowserSig values: the three documented ones in any letter case, now and then another browser's name or nothing at all.
+// Whatever the client makes of a name it does not know (today: chrome's hello), every configuration it accepts must
+// work and put a well-formed record stream on the wire.
+var frBrowserGen = rapid.SampledFrom([]string{"chrome", "firefox", "safari", "chrome", "firefox", "safari", "chrome", "firefox", "safari",
+	"Chrome", "FIREFOX", "Safari", "", "edge", "ios", "qq", "360", "android", "opera", "randomized"})
+
 func frGen(maxConns int, directOnly bool) func(rt *rapid.T) frScenario {
 	return func(rt *rapid.T) frScenario {
 		var sc frScenario
@@ -610,7 +616,7 @@ func frGen(maxConns int, directOnly bool) func(rt *rapid.T) frScenario {
 			Method:     "shadowsocks",
 			Enc:        rapid.SampledFrom([]string{"plain", "aes-256-gcm", "aes-128-gcm", "chacha20-poly1305"}).Draw(rt, "enc"),
 			NumConn:    rapid.IntRange(0, 8).Draw(rt, "numconn"),
-			Browser:    rapid.SampledFrom([]string{"chrome", "firefox", "safari"}).Draw(rt, "browser"),
+			Browser:    frBrowserGen.Draw(rt, "browser"),
 			Transport:  "direct",
 			ServerName: rapid.SampledFrom([]string{"www.bing.com", "random", "a.example.org", "RANDOM", "rAnDoM"}).Draw(rt, "sn"),
 		}
